@@ -269,6 +269,9 @@ func (g *gen) assign() *S {
 	case 7:
 		if len(g.strVars) > 0 {
 			x := vh.Pick(g.r, g.strVars)
+			if g.r.Chance(25) {
+				return ExprS(Set(x, Var(vh.Pick(g.r, g.strVars)))) // VarFastAssign copy of a non-int: the fallback path
+			}
 			g.noStrVars = true
 			defer func() { g.noStrVars = false }()
 			if g.r.Bool() {
@@ -391,7 +394,7 @@ func (g *gen) stmt() []*S {
 	case 11:
 		return g.doLoop()
 	case 12, 13:
-		return one(g.forLoop())
+		return g.forLoop()
 	case 14:
 		return one(g.foreachLoop())
 	case 15, 16:
@@ -412,48 +415,138 @@ func (g *gen) stmt() []*S {
 // while / do-while come as a pair: counter initialisation, loop.
 func seq(ss ...*S) []*S { return ss }
 
+// counterWrite: a statement of the loop body that writes the loop's own counter and keeps the
+// loop finite (an upward counter only moves up or to its bound, a downward one down or to 0).
+func (g *gen) counterWrite(c int, up bool, bound int64) *S {
+	if !up {
+		switch g.r.Intn(4) {
+		case 0:
+			return ExprS(Inc("postdec", c))
+		case 1:
+			return ExprS(Inc("predec", c))
+		case 2:
+			return ExprS(OpSet("sub", c, Int(1)))
+		default:
+			return ExprS(Set(c, Int(0)))
+		}
+	}
+	switch g.r.Intn(7) {
+	case 0:
+		return ExprS(Inc("postinc", c))
+	case 1:
+		return ExprS(Inc("preinc", c))
+	case 2:
+		return ExprS(OpSet("add", c, Int(1)))
+	case 3:
+		return ExprS(Set(c, Bin("add", Var(c), Int(1))))
+	case 4:
+		return ExprS(Set(c, Int(bound)))
+	case 5:
+		return ExprS(Set(c, Bin("add", Var(c), Int(2))))
+	default:
+		return ExprS(Set(c, Bin("mul", Var(c), Int(2)))) // 0 stays 0: the loop's own step still ends it
+	}
+}
+
+// loopBody: the body of a loop driven by counter c. The counter can be read by everything in the
+// body and is sometimes written by it (directly or under a condition on the counter).
+func (g *gen) loopBody(c int, up bool, bound int64) []*S {
+	saved := g.intVars
+	g.intVars = append(append([]int{}, saved...), c)
+	body := g.nested(true, g.body)
+	g.intVars = saved
+	if g.r.Chance(30) {
+		w := g.counterWrite(c, up, bound)
+		if g.r.Bool() {
+			w = If(Bin(vh.Pick(g.r, []string{"eq", "ge", "lt"}), Var(c), Int(int64(g.r.Range(0, 3)))), []*S{w}, nil)
+		}
+		pos := g.r.Intn(len(body) + 1)
+		body = append(append(append([]*S{}, body[:pos]...), w), body[pos:]...)
+	}
+	return body
+}
+
+// afterLoop: the counter is (often) looked at once the loop is over.
+func (g *gen) afterLoop(c int, ss []*S) []*S {
+	if g.r.Chance(55) {
+		ss = append(ss, Echo(g.tag(), Var(c), Str(" ")))
+	}
+	return ss
+}
+
 func (g *gen) whileLoop() []*S {
 	c := g.counter()
 	k := int64(g.r.Range(1, 4))
 	if g.r.Chance(30) {
 		// while ($c++ < k) { … }
-		body := g.nested(true, g.body)
-		return seq(ExprS(Set(c, Int(0))), While(Bin("lt", Inc("postinc", c), Int(k)), body))
+		body := g.loopBody(c, true, k)
+		return g.afterLoop(c, seq(ExprS(Set(c, Int(0))), While(Bin("lt", Inc("postinc", c), Int(k)), body)))
 	}
-	body := g.nested(true, g.body)
+	body := g.loopBody(c, true, k)
 	body = append([]*S{ExprS(Inc("postinc", c))}, body...)
-	return seq(ExprS(Set(c, Int(0))), While(Bin(vh.Pick(g.r, []string{"lt", "le"}), Var(c), Int(k)), body))
+	return g.afterLoop(c, seq(ExprS(Set(c, Int(0))), While(Bin(vh.Pick(g.r, []string{"lt", "le"}), Var(c), Int(k)), body)))
 }
 
 func (g *gen) doLoop() []*S {
 	c := g.counter()
 	k := int64(g.r.Range(1, 4))
-	body := g.nested(true, g.body)
+	body := g.loopBody(c, true, k)
 	body = append([]*S{ExprS(Inc("postinc", c))}, body...)
-	return seq(ExprS(Set(c, Int(0))), Do(body, Bin("lt", Var(c), Int(k))))
+	return g.afterLoop(c, seq(ExprS(Set(c, Int(0))), Do(body, Bin(vh.Pick(g.r, []string{"lt", "le"}), Var(c), Int(k)))))
 }
 
-func (g *gen) forLoop() *S {
+// forLoop: every combination of the condition / increment shapes that select a specialised node
+// (`$c <= n` → VarIntLe, `$c++` → VarStmtIncr, `$c += 1`, `$c = $c + 1` → VarFastAssign) and of the
+// neighbouring shapes that do not, with the initialisation inside or before the loop header.
+func (g *gen) forLoop() []*S {
 	c := g.counter()
 	k := int64(g.r.Range(1, 4))
-	body := g.nested(true, g.body)
-	switch g.r.Intn(6) {
-	case 0:
-		return For([]*E{Set(c, Int(k))}, Bin("gt", Var(c), Int(0)), []*E{Inc("postdec", c)}, body)
-	case 1:
-		return For([]*E{Set(c, Int(0))}, Bin("le", Var(c), Int(k-1)), []*E{Inc("postinc", c)}, body) // VarIntLe + VarStmtIncr
-	case 2:
-		return For([]*E{Set(c, Int(0))}, Bin("lt", Var(c), Int(k*2)), []*E{OpSet("add", c, Int(2))}, body)
-	case 3:
-		if x := g.writableInt(); x >= 0 {
-			return For([]*E{Set(c, Int(0))}, Bin("lt", Var(c), Int(k)), []*E{Inc("postinc", c), Inc("postinc", x)}, body)
-		}
-		fallthrough
-	case 4:
-		return For([]*E{Set(c, Int(0))}, Bin("lt", Var(c), Int(k)), []*E{Inc("preinc", c)}, body)
-	default:
-		return For([]*E{Set(c, Int(0))}, Bin("lt", Var(c), Int(k)), []*E{Inc("postinc", c)}, body)
+	if g.r.Chance(20) { // downward
+		body := g.loopBody(c, false, 0)
+		inc := vh.Pick(g.r, []*E{Inc("postdec", c), Inc("predec", c), OpSet("sub", c, Int(1)), Set(c, Bin("sub", Var(c), Int(1)))})
+		cond := vh.Pick(g.r, []*E{Bin("gt", Var(c), Int(0)), Bin("ge", Var(c), Int(1)), Bin("lt", Int(0), Var(c))})
+		return g.afterLoop(c, []*S{For([]*E{Set(c, Int(k))}, cond, []*E{inc}, body)})
 	}
+	step := int64(1)
+	var incs []*E
+	switch g.r.Intn(7) {
+	case 0, 1:
+		incs = []*E{Inc("postinc", c)} // VarStmtIncr
+	case 2:
+		incs = []*E{Inc("preinc", c)}
+	case 3:
+		incs = []*E{OpSet("add", c, Int(1))}
+	case 4:
+		incs = []*E{Set(c, Bin("add", Var(c), Int(1)))}
+	case 5:
+		incs = []*E{OpSet("add", c, Int(2))}
+		step = 2
+	default:
+		if x := g.writableInt(); x >= 0 {
+			incs = []*E{Inc("postinc", c), Inc("postinc", x)}
+		} else {
+			incs = []*E{Inc("postinc", c)}
+		}
+	}
+	hi := k * step // the loop runs while c < hi
+	var cond *E
+	switch g.r.Intn(6) {
+	case 0, 1:
+		cond = Bin("le", Var(c), Int(hi-1)) // VarIntLe
+	case 2:
+		cond = Bin("lt", Var(c), Int(hi))
+	case 3:
+		cond = Bin("ge", Int(hi-1), Var(c))
+	case 4:
+		cond = Bin("gt", Int(hi), Var(c))
+	default:
+		cond = Bin("le", Var(c), Bin("sub", Int(hi), Int(1))) // not a literal: plain BinaryLe
+	}
+	body := g.loopBody(c, true, hi)
+	if g.r.Chance(25) { // for (; cond; inc) with the counter set before the loop
+		return g.afterLoop(c, []*S{ExprS(Set(c, Int(0))), For(nil, cond, incs, body)})
+	}
+	return g.afterLoop(c, []*S{For([]*E{Set(c, Int(0))}, cond, incs, body)})
 }
 
 func (g *gen) foreachLoop() *S {
